@@ -58,6 +58,16 @@ pub(crate) trait ActionsGenerator {
     ) -> Vec<(String, syn::Item)>;
 }
 
+/// Returns the name of the type defined by the given item, if any.
+fn type_ident(item: &syn::Item) -> Option<String> {
+    match item {
+        syn::Item::Enum(e) => Some(e.ident.to_string()),
+        syn::Item::Struct(s) => Some(s.ident.to_string()),
+        syn::Item::Type(t) => Some(t.ident.to_string()),
+        _ => None,
+    }
+}
+
 pub(super) fn generate_parser_actions(generator: &ParserGenerator) -> Result<()> {
     let parser_mod = PathBuf::from(&generator.file_name)
         .file_stem()
@@ -174,7 +184,12 @@ pub(super) fn generate_parser_actions(generator: &ParserGenerator) -> Result<()>
             if !type_names.contains(&nonterminal.name) {
                 log!("Creating types for non-terminal '{}'.", nonterminal.name);
                 for ty in actions_generator.nonterminal_types(nonterminal, generator.settings) {
-                    ast.items.push(ty);
+                    // A non-terminal may need several types (e.g. `type A =
+                    // Option<ANoO>` and `struct ANoO`). Do not duplicate
+                    // those that are still in the file.
+                    if !type_ident(&ty).is_some_and(|name| type_names.contains(&name)) {
+                        ast.items.push(ty);
+                    }
                 }
             }
 
